@@ -10,6 +10,17 @@ CHECKS = {
              "those bounds, not beyond.",
         note="Trusted: the symbolic interpreter (cross-checked natively on every explored path), z3, the X.690 reference encoder in props/refs.py. "
              "Content lengths other than the listed ones are outside the claim."),
+    "C02": dict(
+        text="compute_l2_key / compute_l1_key / KeyCache._get_key / get_kek are executed with the envelope position and the requested position symbolic over "
+             "the full 32^4 lattice (covering pairs), L0 symbolic, and a chain-step KDF stub whose abstract keys carry symbolic indices; on every path z3 "
+             "proves the returned key is the chain element L2(L1,L2). Non-covering and out-of-range requests must raise ValueError within the step budget.",
+        note="Trusted: interpreter (per-path native cross-check), z3, the chain-step stub as a faithful statement of MS-GKDI 3.1.4.1.2, collision-freeness of the "
+             "real KDF. Quick tier: one hash for the lattice (the hash only selects the stub's algorithm check); thorough: 4 hashes x 3 L0 values on the root route."),
+    "C09": dict(
+        text="_get_protection_gke_from_cache is executed with time.time_ns() symbolic over [0, 2^63); z3 proves (QF_BV, or QF_BVFP when the code divides in "
+             "floating point) that the (L0,L1,L2) handed to the cache equal floor(t/(1024b)), floor(t/(32b)) mod 32, floor(t/b) mod 32 for every instant.",
+        note="Trusted: interpreter, z3's bit-vector and floating-point theories, the CPython int/int model (correct rounding via 130-bit intermediate). "
+             "Clock values outside 1970..2262 are outside the claim."),
 }
 
 _PENDING = "check not built yet in this round (work in progress; see DESIGN.md for the plan)"
